@@ -138,10 +138,19 @@ FileClasses ==
 TypeOK == Running => WellFormed /\ cur \in (-1)..N
 
 \* Lemmas about the spec's own operators.
-BelowAgrees == Running => \A t \in 0..(2 * N + 2) : Below(All, t) = BelowDef(All, t)
+BelowAgrees == Running /\ cur = -1 /\ out.op = "none" => \A t \in 0..(2 * N + 2) : Below(All, t) = BelowDef(All, t)
+AllClasses == {"tooEarly", "tooLate", "notFound"}
+ComposesWith(E) == \A t \in Targets : ReaderByFallthrough(files, t, E) \subseteq ReaderSeekOutcomes(files, t)
+FreshReader == Running /\ level = "reader" /\ cur = -1 /\ out.op = "none"   \* once per log
 FallthroughAdmissible ==
-    Running /\ level = "reader" /\ (\A i \in 1..Len(files) : files[i] # <<>>) =>
-        \A t \in Targets : ReaderByFallthrough(files, t) \subseteq ReaderSeekOutcomes(files, t)
+    FreshReader /\ (\A i \in 1..Len(files) : files[i] # <<>>) => ComposesWith(AllClasses)
+\* If a file without lines answers tooEarly, the composition is correct for
+\* every log; if the CURRENT file is the empty one and the rotated one is
+\* not, no other answer is.
+EmptyAsTooEarlyComposes == FreshReader => ComposesWith({"tooEarly"})
+OnlyTooEarlyForEmptyCurrent ==
+    FreshReader /\ Len(files) = 2 /\ files[2] = <<>> /\ files[1] # <<>> =>
+        ~ComposesWith({"tooLate"}) /\ ~ComposesWith({"notFound"})
 
 \* hist is determined by the other variables only up to the read run; hiding
 \* it would merge states that the invariants distinguish, so no VIEW here.
